@@ -216,6 +216,8 @@ bloc::Value * UTF8Plugin::executeMethod(
     bloc::Value& a0 = args[0]->value(ctx);
     if (a0.isNull())
       throw RuntimeError(EXC_RT_OTHER_S, "Invalid arguments.");
+    if (*a0.integer() < 0)
+      throw RuntimeError(EXC_RT_OUT_OF_RANGE);
     u->Reserve(*a0.integer());
     return new bloc::Value(bloc::Bool(true));
   }
